@@ -264,7 +264,15 @@ def trial_collections(ctx, w, trial, oracle_only=False):
             blks = "[" + ",".join(blk_line(v, vol, wp, [b.p.percentBu]) for (v, vol, wp), b in zip(win, order)) + "]"
             mb = bc._getMedianBlock()
             idx = [i for i, b in enumerate(order) if b is mb]
-            if not oracle_only:
+            # modelled domain: the float products bu*weight order the candidates as the exact products do (products a few
+            # ulp apart - e.g. bu 3.0 x V against 1.5 x 2V - are the "nearly coincident" stream, judged by the oracle alone)
+            fl = sorted((b.p.percentBu * wi, b.getName()) for b, wi in zip(cands, ws))
+            ex = sorted((Fraction(b.p.percentBu) * (Fraction(b.p[bc.weightingParam] or 1.0) if bc.weightingParam else 1)
+                         * Fraction(b.getVolume() or 1.0), b.getName()) for b in cands)
+            inDomain = [n for _, n in fl] == [n for _, n in ex]
+            if not inDomain:
+                ctx.count("excluded point: median keys a few ulp apart (float and exact order differ), oracle only")
+            if not oracle_only and inDomain:
                 ask(f"median {useP} {blks} {names}",
                     lambda line, case=case, idx=idx: (line == str(idx[0]) if idx else False)
                     or ctx.disagree("median block vs MedianBlockCollection._getMedianBlock", case, line, idx))
